@@ -8,6 +8,7 @@ EXPLANATION = ("R-NUM encoding of the configured timeout (shared with C08); R-SI
                "R-EXIT timeout_handler resumes with TimedOut only behind a non-null event_data and a taken coroutine; R-PAIR Drop for "
                "IoData disarms, deregisters, then retires the EventData (delayed free), the retired data is freed by the owning "
                "selector after the ready list; R-SIB cancel registration of the io sources (publish, register, re-check)")
+EXPLANATION_2 = ("read/write timeout direction agreement (setters store their argument into their own direction on success paths, getters read it, try_clone inherits both, every io source is constructed with its own direction's timeout); result-consumption rules imported from C15/C17")
 NOT_DECIDED = "elapsed time; data-vs-deadline races in the kernel; the non-atomic timer RefCell / Entry fields touched from several threads"
 CONFIGS_QUICK = ["default"]
 CONFIGS_THOROUGH = ["default", "nosteal"]
